@@ -2,8 +2,8 @@ package main
 
 import (
 	"crypto"
-	stded "crypto/ed25519"
 	stdecdsa "crypto/ecdsa"
+	stded "crypto/ed25519"
 	"crypto/elliptic"
 	"crypto/sha256"
 	"crypto/sha512"
@@ -333,8 +333,8 @@ func init() {
 		}
 		sigOK := indepVerify(finalSt, finalKey, append(append([]byte{}, prefix...), mut[:sigslot.off]...), mut[sigslot.off:sigslot.off+sigslot.n])
 		return Res{"setup": true, "signed": ints(signed), "mut": ints(mut),
-			"pre": map[string]any{"parse_ok": preParse, "verify_ok": preVerify, "err": preErr},
-			"post": map[string]any{"parse_ok": postParse, "verify_ok": postVerify, "err": postErr},
+			"pre":   map[string]any{"parse_ok": preParse, "verify_ok": preVerify, "err": preErr},
+			"post":  map[string]any{"parse_ok": postParse, "verify_ok": postVerify, "err": postErr},
 			"indep": map[string]any{"sig_ok": sigOK, "off_ok": offOK}}
 	})
 }
